@@ -1,5 +1,256 @@
-"""stub"""
+"""C10 — expansion enumerates every complete decay path once (DESIGN.md §4 C10)."""
+from __future__ import annotations
+
+import ast
+
+from ..core import guards
+from ..core import pyfacts as pf
+from ..core.defuse import is_identity
+from ..core.larkfacts import grammar_facts
+from ..core.match import call_arg, phi_alts, txt
 from ..core.source import AnchorMissing
-PROP="C10"
+from .common import DEC, DECAY, DECGRAMMAR, UTIL, builder_sites, ckey, enclosing, fn, is_empty_list, returns, single_def, stmt_of, where
+
+PROP = "C10"
+FILES = [DEC, DECAY, UTIL, DECGRAMMAR]
+EXPLANATION = (
+    "C10.1 in _expand_decay_modes each daughter contributes exactly one factor (dict daughters: their own expanded modes, "
+    "plain names: themselves), the factor list is re-initialised per mode and itertools.product receives all of it; C10.2 "
+    "nullable flow: a decay table with no lines (grammatical) must not reach the product as an empty factor — checked "
+    "link by link (grammar, _find_decay_modes, build_decay_chains, factor construction); C10.3 the recursion forwards "
+    "aliases and top=False, and the public entry passes the file's aliases and the full chain; C10.4 each descriptor is "
+    "format_descriptor(alias-resolved mother, canonical daughters string of the chosen tuple, top) appended once per tuple.")
+NOT_DECIDED = ["the count formula as arithmetic over runtime tables", "equality with an independently enumerated path set"]
+E = "_expand_decay_modes"
+
+
 def run(ctx, ss):
-    raise AnchorMissing("rules not built yet")
+    for r, f in (("C10.1", c10_1), ("C10.2", c10_2), ("C10.3", c10_3), ("C10.4", c10_4)):
+        ctx.guard(r, f, ss)
+
+
+def _product_call(ff):
+    cs = [c for c in pf.calls_in(ff.node) if txt(c.func) in ("product", "itertools.product")]
+    if len(cs) != 1:
+        raise AnchorMissing(f"{E}: expected one itertools.product call, found {len(cs)}")
+    return cs[0]
+
+
+def c10_1(ctx, ss):
+    ff, flow = fn(ss, DECAY, E)
+    pc = _product_call(ff)
+    k = ckey(ff, None, "product")
+    if not (len(pc.args) == 1 and isinstance(pc.args[0], ast.Starred) and isinstance(pc.args[0].value, ast.Name) and not pc.keywords):
+        ctx.violation("C10.1", k + " :: all-factors", where(ff, pc), f"itertools.product receives `{txt(pc)[:80]}`: not one factor per daughter (sliced / partial / repeated)")
+        return
+    name = pc.args[0].value.id
+    d = single_def(flow, pc.args[0].value)
+    if d is None or d.kind != "assign" or not is_empty_list(d.value):
+        ctx.violation("C10.1", k + " :: all-factors", where(ff, pc), "the factor list reaching itertools.product is not a list initialised empty exactly once per mode")
+        return
+    ctx.holds("C10.1", k + " :: all-factors", where(ff, pc), f"product(*{name}) with {name} the complete factor list", 2)
+    # initialised inside the per-mode loop that also contains the product
+    mode_loops = enclosing(ff, stmt_of(ff, pc), (ast.For,))
+    init_loops = enclosing(ff, d.stmt, (ast.For,))
+    if mode_loops and init_loops and init_loops[0] is mode_loops[-1]:
+        ctx.holds("C10.1", k + " :: per-mode", where(ff, d.stmt), "the factor list is re-initialised for every decay mode", 1)
+    else:
+        ctx.violation("C10.1", k + " :: per-mode", where(ff, d.stmt), "the factor list is not re-initialised per decay mode: factors of earlier modes leak into later products")
+    sites = builder_sites(ff, flow, name)
+    apps = [s for s in sites if s[1] == "append"]
+    other = [s for s in sites if s[1] != "append"]
+    for st, m, _ in other:
+        ctx.violation("C10.1", ckey(ff, st), where(ff, st), f"the factor list is also changed by `{m}`")
+    seen_kinds = {}
+    fs_loop = None
+    for st, _, args in apps:
+        lps = enclosing(ff, st, (ast.For,))
+        if not lps:
+            raise AnchorMissing("factor append outside a loop")
+        fs_loop = lps[0]
+        conds = [c for c in guards.path_conditions(ff.node, st, stop_at=fs_loop) if c[0] == "if"]
+        kinds = [txt(e) for _, e, pol in conds if pol]
+        a = args[0]
+        tv = isinstance(fs_loop.target, ast.Name) and fs_loop.target.id
+        if any(kk.replace(" ", "") == f"isinstance({tv},dict)" for kk in kinds):
+            seen_kinds["dict"] = (st, a)
+        elif any(kk.replace(" ", "") == f"isinstance({tv},str)" for kk in kinds):
+            seen_kinds["str"] = (st, a)
+        else:
+            ctx.violation("C10.1", ckey(ff, st), where(ff, st), f"a factor is appended under `{kinds}`: not one of the two daughter kinds (dict / str)")
+    if fs_loop is None:
+        ctx.violation("C10.1", k + " :: factors", where(ff, pc), "no factor is ever appended")
+        return
+    it = txt(flow.expand(fs_loop.iter))
+    if not it.startswith("_get_fs(__elem__(_get_modes(decay_chain)))"):
+        ctx.violation("C10.1", ckey(ff, None, "over-all-daughters"), where(ff, fs_loop), f"factors are collected over `{it[:80]}`, not over every daughter of the mode")
+    else:
+        ctx.holds("C10.1", ckey(ff, None, "over-all-daughters"), where(ff, fs_loop), "factors are collected over every daughter of the mode, in order", 1)
+    hdr = flow.cfg.node_of(fs_loop)
+    nodes = {flow.cfg.node_of(st) for st, _, _ in apps}
+    lo, hi, _ = flow.cfg.count_per_iteration(hdr, lambda n: n.id in nodes)
+    if hi > 1:
+        ctx.violation("C10.1", ckey(ff, None, "one-factor"), where(ff, fs_loop), "a daughter can contribute more than one factor")
+    elif set(seen_kinds) != {"dict", "str"}:
+        ctx.violation("C10.1", ckey(ff, None, "one-factor"), where(ff, fs_loop),
+                      f"only daughters of kind {sorted(seen_kinds)} contribute a factor: the others silently shorten every product (paths lost)")
+    else:
+        ctx.holds("C10.1", ckey(ff, None, "one-factor"), where(ff, fs_loop), "every daughter (dict or str) contributes exactly one factor", 3)
+    if "str" in seen_kinds:
+        st, a = seen_kinds["str"]
+        ok = isinstance(a, ast.List) and len(a.elts) == 1 and txt(a.elts[0]) == fs_loop.target.id
+        (ctx.holds if ok else ctx.violation)("C10.1", ckey(ff, None, "str-factor"), where(ff, st),
+                                              "a plain daughter contributes [itself]" if ok else f"a plain daughter contributes `{txt(a)[:60]}`")
+    if "dict" in seen_kinds:
+        st, a = seen_kinds["dict"]
+        ae = flow.expand(a)
+        t = txt(ae)
+        core = ae
+        if isinstance(core, ast.BoolOp) and isinstance(core.op, ast.Or) and len(core.values) == 2 and isinstance(core.values[1], (ast.List, ast.Tuple)) \
+                and len(core.values[1].elts) == 1:
+            core = core.values[0]
+        ok = isinstance(core, ast.Call) and txt(core.func) == "_get_modes" and len(core.args) == 1 and \
+            txt(core.args[0]) == f"__elem__({txt(flow.expand(fs_loop.iter))})"
+        (ctx.holds if ok else ctx.violation)("C10.1", ckey(ff, None, "dict-factor"), where(ff, st),
+                                              "a decaying daughter contributes its own expanded modes" if ok else f"a decaying daughter contributes `{t[:60]}`")
+
+
+def c10_2(ctx, ss):
+    gf = grammar_facts(ss, DECGRAMMAR)
+    l1 = "T:particle" in set(gf.word_strs("decay"))
+    # L2: _find_decay_modes returns the tuple without an emptiness check
+    f2, fl2 = fn(ss, DEC, "DecFileParser._find_decay_modes")
+    l2 = True
+    for r in returns(f2):
+        conds = [txt(fl2.expand(e)) for kind, e, pol in guards.path_conditions(f2.node, r) if kind == "if"]
+        if any("find_data('decayline')" in c for c in conds) or isinstance(r.value, ast.BoolOp):
+            l2 = False
+    # L3: build_decay_chains nests the result of the recursion without an emptiness check
+    f3, fl3 = fn(ss, DEC, "DecFileParser.build_decay_chains")
+    l3 = True
+    for st in pf.iter_stmts(f3.node.body):
+        if isinstance(st, ast.Assign) and isinstance(st.targets[0], ast.Subscript) and "build_decay_chains" in fl3.text(st.value):
+            conds = [txt(e) for kind, e, pol in guards.path_conditions(f3.node, st) if kind == "if"]
+            vn = txt(st.value)
+            if any(vn in c for c in conds):
+                l3 = False
+    # L4: the dict branch appends the daughter's modes without a non-empty fallback
+    f4, fl4 = fn(ss, DECAY, E)
+    pc = _product_call(f4)
+    name = pc.args[0].value.id if pc.args and isinstance(pc.args[0], ast.Starred) and isinstance(pc.args[0].value, ast.Name) else None
+    l4 = True
+    site = None
+    if name:
+        for st, m, args in builder_sites(f4, fl4, name):
+            a = fl4.expand(args[0]) if args else None
+            if a is not None and "_get_modes(" in txt(a):
+                site = st
+                if isinstance(a, ast.BoolOp) and isinstance(a.op, ast.Or) and txt(a.values[0]).startswith("_get_modes("):
+                    fb = a.values[1]
+                    if isinstance(fb, (ast.List, ast.Tuple)) and len(fb.elts) == 1:
+                        l4 = False
+                if isinstance(a, ast.IfExp):
+                    l4 = False
+                conds = [txt(e) for kind, e, pol in guards.path_conditions(f4.node, st) if kind == "if"]
+                if any("_get_modes(" in c and "isinstance" not in c for c in conds):
+                    l4 = False
+    k = f"{DECAY}:{E} :: empty-block-erases-paths"
+    links = {"grammar allows an empty Decay block": l1, "_find_decay_modes returns an empty tuple unchecked": l2,
+             "build_decay_chains nests the empty chain unchecked": l3, "the dict daughter's (empty) mode list becomes a product factor": l4}
+    if all(links.values()):
+        ctx.violation("C10.2", k, where(f4, site or f4.node),
+                      "a daughter declared stable through an empty Decay block reaches itertools.product as an EMPTY factor: every path through it "
+                      "vanishes from the expansion (" + "; ".join(links) + ")", 4)
+    else:
+        broken = [n for n, v in links.items() if not v]
+        ctx.holds("C10.2", k, where(f4, site or f4.node), f"an empty decay table cannot become an empty product factor (guarded: not `{broken[0]}`)", 4)
+
+
+def c10_3(ctx, ss):
+    ff, flow = fn(ss, DECAY, E)
+    rec = [c for c in pf.calls_in(ff.node) if txt(c.func) == E]
+    if not rec:
+        ctx.violation("C10.3", ckey(ff, None, "recursion"), where(ff, ff.node), "sub-decays are never expanded (no recursive call)")
+        return
+    for c in rec:
+        k = ckey(ff, None, "recursive-call")
+        a = call_arg(c, None, "aliases")
+        if a is not None and flow.is_identity_of(a, "aliases"):
+            ctx.holds("C10.3", k + " :: aliases", where(ff, c), "aliases forwarded to the recursion", 1)
+        else:
+            ctx.violation("C10.3", k + " :: aliases", where(ff, c), "aliases are not forwarded to the recursion: decaying aliases below the top level keep their alias name")
+        t = call_arg(c, None, "top")
+        if t is not None and isinstance(t, ast.Constant) and t.value is False:
+            ctx.holds("C10.3", k + " :: top", where(ff, c), "nested levels are rendered with top=False", 1)
+        else:
+            ctx.violation("C10.3", k + " :: top", where(ff, c), "nested levels are not rendered with top=False")
+        # recursion runs on every dict daughter of every mode
+        lps = enclosing(ff, c, (ast.For,))
+        ok = len(lps) == 2 and txt(flow.expand(lps[1].iter)) == "_get_modes(decay_chain)" and txt(lps[0].iter).startswith("_get_fs(")
+        conds = [txt(e).replace(" ", "") for kind, e, pol in guards.path_conditions(ff.node, stmt_of(ff, c), stop_at=lps[-1] if lps else None) if kind == "if" and pol]
+        okc = len(conds) == 1 and conds[0].startswith("isinstance(") and conds[0].endswith(",dict)")
+        (ctx.holds if ok and okc else ctx.violation)("C10.3", k + " :: everywhere", where(ff, c),
+                                                     "every dict daughter of every mode is expanded recursively" if ok and okc
+                                                     else "the recursive expansion does not visit every dict daughter of every mode")
+    # public entry
+    pf_, pflow = fn(ss, DEC, "DecFileParser.expand_decay_modes")
+    calls = [c for c in pf.calls_in(pf_.node) if txt(c.func) == E]
+    ok = len(calls) == 1 and call_arg(calls[0], None, "aliases") is not None and pflow.text(call_arg(calls[0], None, "aliases")) == "self.dict_aliases()" \
+        and calls[0].args and pflow.text(calls[0].args[0]) == "self.build_decay_chains(particle)" \
+        and (call_arg(calls[0], None, "top") is None or txt(call_arg(calls[0], None, "top")) == "True")
+    (ctx.holds if ok else ctx.violation)("C10.3", ckey(pf_, None, "entry"), where(pf_, pf_.node),
+                                          "expand_decay_modes(p) = _expand_decay_modes(build_decay_chains(p), aliases=dict_aliases())" if ok
+                                          else "the public entry does not pass the full chain of the particle and the file's aliases")
+    r = returns(pf_)
+    okr = len(r) == 1 and (r[0].value is calls[0] if calls else False)
+    if calls and not okr:
+        ctx.violation("C10.3", ckey(pf_, None, "entry-returns"), where(pf_, pf_.node), "the public entry does not return the expansion unchanged")
+
+
+def c10_4(ctx, ss):
+    ff, flow = fn(ss, DECAY, E)
+    pc = _product_call(ff)
+    fd = [c for c in pf.calls_in(ff.node) if txt(c.func).endswith("format_descriptor")]
+    if len(fd) != 1:
+        raise AnchorMissing(f"{E}: expected one format_descriptor call")
+    c = fd[0]
+    k = ckey(ff, None, "descriptor")
+    a = [flow.expand(x) for x in c.args]
+    if len(a) != 3 or c.keywords:
+        raise AnchorMissing("format_descriptor call shape not understood")
+    mother_ok = txt(a[0]) in ("aliases.get(next(iter(decay_chain.keys())), next(iter(decay_chain.keys()))) if aliases else next(iter(decay_chain.keys()))",
+                              "aliases.get(next(iter(decay_chain)), next(iter(decay_chain))) if aliases else next(iter(decay_chain))")
+    (ctx.holds if mother_ok else ctx.violation)("C10.4", k + " :: mother", where(ff, c),
+                                                "mother = alias-resolved key of the chain" if mother_ok else f"the descriptor's mother is `{txt(a[0])[:100]}`")
+    want_fs = f"DaughtersDict(__elem__({txt(flow.expand(pc))})).to_string()"
+    fs_ok = txt(a[1]) == want_fs
+    (ctx.holds if fs_ok else ctx.violation)("C10.4", k + " :: daughters", where(ff, c),
+                                            "daughters = DaughtersDict(<chosen tuple>).to_string() (canonical multiset order)" if fs_ok
+                                            else f"the descriptor's daughters are `{txt(a[1])[:120]}`, not the canonical string of the chosen tuple")
+    top_ok = is_identity(a[2], "top")
+    (ctx.holds if top_ok else ctx.violation)("C10.4", k + " :: top", where(ff, c), "the top flag is passed through" if top_ok else f"the top flag passed is `{txt(a[2])}`")
+    # appended once per tuple, returned and stored
+    rets = returns(ff)
+    rn = rets[0].value.id if len(rets) == 1 and isinstance(rets[0].value, ast.Name) else None
+    if rn is None:
+        raise AnchorMissing(f"{E}: return is not a local list")
+    sites = builder_sites(ff, flow, rn)
+    ploop = enclosing(ff, c, (ast.For,))
+    adds = [st for st, m, args in sites if m in ("append", "iadd")]
+    ok = False
+    if len(adds) == 1 and ploop and ploop[0].iter is pc:
+        hdr = flow.cfg.node_of(ploop[0])
+        node = flow.cfg.node_of(adds[0])
+        lo, hi, _ = flow.cfg.count_per_iteration(hdr, lambda n, node=node: n.id == node)
+        payload = [args for st, m, args in sites if st is adds[0]][0][0]
+        pt = flow.text(payload)
+        ok = (lo, hi) == (1, 1) and "format_descriptor(" in pt
+    (ctx.holds if ok else ctx.violation)("C10.4", k + " :: once", where(ff, adds[0] if adds else ff.node),
+                                         "exactly one descriptor is added per element of the product" if ok else "descriptors are not added exactly once per element of the product")
+    init = single_def(flow, rets[0].value)
+    ok_init = init is not None and init.kind in ("assign", "aug")
+    # the accumulator must be initialised empty outside the mode loop
+    inits = [d for d in flow.defs if d.name == rn and d.kind == "assign"]
+    ok_init = len(inits) == 1 and is_empty_list(inits[0].value) and not enclosing(ff, inits[0].stmt, (ast.For,))
+    (ctx.holds if ok_init else ctx.violation)("C10.4", k + " :: accumulate", where(ff, inits[0].stmt if inits else ff.node),
+                                              "descriptors of all modes accumulate in one list" if ok_init else "the descriptor list is reset or not initialised empty")
